@@ -13,6 +13,7 @@
   checked on the real engine by the correspondence).
 -/
 import ILV.Lemmas.Engine
+import ILV.Lemmas.LeastModel
 import ILV.Props.C01
 namespace ILV.Props.C04
 open ILV ILV.DL ILV.Engine
@@ -118,6 +119,58 @@ example : inFragmentAll C01.chain3 C01.chain3Db = true ∧ inFragmentAll chain3'
   decide
 
 example : sameRules C01.chain3 chain3' := sameRules_of_B (by decide)
+
+/-- no negated atom mentions its own head (what stratification demands of a self-loop). -/
+def noNegSelf (p : Program) : Bool := p.all (fun r => r.negAtoms.all (fun a => a.rel != r.hrel))
+
+/-- **(a)+(b) with self-recursive heads.** Same set of rules, same query relation, both programs in
+    `inFragmentRec` (only self-loops, aggregate-free, exactly the heads executed), no negated
+    self-reference, clauses evaluated faithfully, both runs answer: the answers are equal. Each
+    run's database is, head by head, the least closed set (`run_least`); such databases are unique
+    (`least_le`) and the notion only depends on the rule set (`leastFor_sameRules`). -/
+theorem C04_partial_rec (p p' : Program) (edb : DB) (hash hash' : Tuple → Nat)
+    (ord ord' : String → List Tuple → List Tuple) (fuel fuel' : Nat) (A A' : List Tuple) (acc acc' : DB)
+    (hsame : sameRules p p') (hq : queryRel p = queryRel p')
+    (hf : inFragmentRec p edb = true) (hf' : inFragmentRec p' edb = true)
+    (hns : noNegSelf p = true) (hcf : ClauseFaithful p)
+    (hrun : Engine.run allOff hash ord fuel p edb = .ok A acc)
+    (hrun' : Engine.run allOff hash' ord' fuel' p' edb = .ok A' acc') :
+    MemEq A A' := by
+  have hneg : ∀ r, r ∈ p → ∀ a, a ∈ r.negAtoms → a.rel ≠ r.hrel := by
+    intro r hr a ha
+    have := List.all_eq_true.1 (List.all_eq_true.1 hns r hr) a ha
+    simpa using this
+  have hneg' : ∀ r, r ∈ p' → ∀ a, a ∈ r.negAtoms → a.rel ≠ r.hrel := fun r hr => hneg r ((hsame r).2 hr)
+  obtain ⟨hL, hnon, hA⟩ := run_least p edb hash ord fuel A acc hf hcf hneg hrun
+  obtain ⟨hL', hnon', hA'⟩ := run_least p' edb hash' ord' fuel' A' acc' hf' (clauseFaithful_sameRules hsame hcf) hneg' hrun'
+  obtain ⟨hdep, hheads, _, _, hagg, hlastq⟩ := inFragmentRec_parts hf
+  obtain ⟨_, _, hall', _, _, _⟩ := inFragmentRec_parts hf'
+  have hL2 : ∀ g, g ∈ execOrder p → LeastFor p (lkOf edb acc') g := by
+    intro g hg
+    exact leastFor_sameRules hsame _ g (hL' g (hall' g ((sameRules_heads hsame g).1 (hheads g hg))))
+  have hnon2 : ∀ r, r ∉ heads p → lkOf edb acc r = lkOf edb acc' r := by
+    intro r hr
+    rw [hnon r hr, hnon' r (fun hc => hr ((sameRules_heads hsame r).2 hc))]
+  have hqm : queryRel p ∈ execOrder p := List.mem_of_getLast? hlastq
+  have := least_le p hagg (lkOf edb acc) (lkOf edb acc') hnon2 (execOrder p) [] hdep hL hL2 (fun r hr => by cases hr) (queryRel p) hqm
+  rw [hA, hq, hA'] at this
+  exact this
+
+/-- transitive closure with the recursive clause first vs. last and a repeated clause. -/
+def tc1 : Program := [
+  { hrel := "t", hargs := [.var "X", .var "Z"], body := [C01.a2 "t" "X" "Y", C01.a2 "e" "Y" "Z"] },
+  { hrel := "t", hargs := [.var "X", .var "Y"], body := [C01.a2 "e" "X" "Y"] },
+  { hrel := "q", hargs := [.var "X", .var "Y"], body := [C01.a2 "t" "X" "Y"] } ]
+def tc2 : Program := [
+  { hrel := "t", hargs := [.var "X", .var "Y"], body := [C01.a2 "e" "X" "Y"] },
+  { hrel := "t", hargs := [.var "X", .var "Z"], body := [C01.a2 "t" "X" "Y", C01.a2 "e" "Y" "Z"] },
+  { hrel := "t", hargs := [.var "X", .var "Y"], body := [C01.a2 "e" "X" "Y"] },
+  { hrel := "q", hargs := [.var "X", .var "Y"], body := [C01.a2 "t" "X" "Y"] } ]
+
+example : sameRulesB tc1 tc2 = true ∧ inFragmentRec tc1 C01.chain = true ∧ inFragmentRec tc2 C01.chain = true ∧
+    noNegSelf tc1 = true ∧ tc1.all filterRule = true ∧
+    (Engine.run allOff C01.noHash C01.anyOrd 8 tc2 C01.chain).toWire = "i64:0,i64:1;i64:0,i64:2;i64:1,i64:2" := by
+  decide
 
 /-! ### engine reuse and base facts -/
 
